@@ -71,7 +71,7 @@ Accepted(e) == Answered(e) /\ Main(e).cause = 1
 \* all checks a step can make; TRUE unless the step sets them
 ChkOK == [one |-> TRUE, type |-> TRUE, seq |-> TRUE, hdrSeid |-> TRUE, cause |-> TRUE, shape |-> TRUE, created |-> TRUE,
           mustReject |-> TRUE, writesNothing |-> TRUE, seidLegal |-> TRUE, teidLegal |-> TRUE, ipLegal |-> TRUE,
-          ipRefusal |-> TRUE, teidProgrammed |-> TRUE, addressed |-> TRUE, mustAccept |-> TRUE, srrDue |-> TRUE, srrNone |-> TRUE, srrRate |-> TRUE, srrShape |-> TRUE, tsConst |-> TRUE, assocIffConn |-> TRUE, features |-> TRUE, rtCount |-> TRUE, rtSpacing |-> TRUE, rtOutcome |-> TRUE, postponed |-> TRUE, startEmpty |-> TRUE, envelope |-> TRUE, markers |-> TRUE,
+          ipRefusal |-> TRUE, teidProgrammed |-> TRUE, addressed |-> TRUE, mustAccept |-> TRUE, srrDue |-> TRUE, srrNone |-> TRUE, srrRate |-> TRUE, srrShape |-> TRUE, tsConst |-> TRUE, assocIffConn |-> TRUE, features |-> TRUE, rtCount |-> TRUE, rtSpacing |-> TRUE, rtOutcome |-> TRUE, postponed |-> TRUE, stopClean |-> TRUE, stopOnce |-> TRUE, stopTime |-> TRUE, startEmpty |-> TRUE, envelope |-> TRUE, markers |-> TRUE,
           pfdKept |-> TRUE, hbTs |-> TRUE]
 
 \* C02 checks common to every request kind
@@ -452,6 +452,36 @@ PostponeEv ==
   /\ last' = [ev |-> "postpone", kind |-> "-", accepted |-> FALSE, u |-> "-"]
   /\ Advance
 
+\* C10: the agent was asked to stop (SIGTERM).  e.exited: the process ended within the time limit, e.exit: its exit
+\* status, e.panic: headline of a panic ("-" if none), e.ms: how long it took, e.errs: commands the datapath answered
+\* with an error so far (a second delete of an entry is answered ENOENT), e.dp: the tables afterwards.
+\* Every session of every association ends: each is removed from the datapath exactly once.
+StopEv ==
+  LET e == Trace[l] IN
+  /\ e.ev = "stop"
+  /\ alive' = FALSE
+  /\ sess' = EmptyFn /\ ipHeld' = EmptyFn /\ teidHeld' = EmptyFn /\ assoc' = EmptyFn /\ pfd' = EmptyFn
+  /\ ended' = ended \cup DOMAIN sess
+  /\ stale' = stale \cup RelabelResidue(DOMAIN sess, ToTables(e.dp))
+  /\ relabel' = {} /\ peerTs' = EmptyFn
+  /\ UNCHANGED cfg
+  /\ tables' = ToTables(e.dp) /\ cmds' = e.cmds /\ snap' = NoSnap
+  /\ chk' = [ChkOK EXCEPT
+       !.stopClean = (e.exited /\ e.panic = "-" /\ e.exit = 0),       \* no panic, no deadlock: the process ends by itself
+       !.stopOnce = (e.errs = e.errsBefore),                           \* no delete was issued twice / against a closed datapath
+       !.stopTime = (e.exited => e.ms <= e.limitMs)]                   \* in bounded time
+  /\ last' = [ev |-> "stop", kind |-> "-", accepted |-> TRUE, u |-> "-"]
+  /\ Advance
+
+\* C10 / C11: the race detector reported a data race in the agent (reduced to the unordered pair of the topmost
+\* repository frames of the two accesses); consumed only if that pair is a listed known finding ("race:<pair>")
+RaceEv ==
+  LET e == Trace[l] IN
+  /\ e.ev = "race" /\ Dev("race:" \o e.pair)
+  /\ UNCHANGED <<alive, cfg, assoc, pfd, sess, ipHeld, teidHeld, ended, stale, relabel, peerTs, tables, cmds, snap>>
+  /\ chk' = ChkOK /\ last' = [ev |-> "race", kind |-> "-", accepted |-> FALSE, u |-> "-"]
+  /\ Advance
+
 \* C01: a mutated or garbage datagram was sent by peer e.peer.  Whatever it did to that peer's association and
 \* sessions is not constrained: they become tainted (their table entries are no longer judged) and the peer is
 \* treated as not associated.  The agent must survive and answer at most once.
@@ -494,9 +524,10 @@ Next == /\ l <= Len(Trace)
         /\ \/ NotReport /\ NotTs /\ (InjectEv \/ CleanupEv \/ DiedEv)
            \/ NotInject /\ NotTs /\ ReportEv
            \/ NotInject /\ StartEv
-           \/ NotInject /\ NotReport /\ (HbEv \/ AssocEv \/ ReleaseEv \/ LostEv \/ RetransEv \/ PostponeEv)
+           \/ NotInject /\ NotReport /\ StopEv
+           \/ NotInject /\ NotReport /\ (HbEv \/ AssocEv \/ ReleaseEv \/ LostEv \/ RetransEv \/ PostponeEv \/ RaceEv)
            \/ NotInject /\ NotReport /\ NotTs /\ (EndEv \/ KillEv \/ PfdEv \/ EstabEv \/ ModEv \/ DelEv \/ InjectRespEv)
-        /\ used' = used \cup UsedNow \cup (IF Trace[l].ev = "died" THEN {"crash:" \o Trace[l].site} ELSE {})      \* the state BEFORE this step (every trace ends with an "end" line)
+        /\ used' = used \cup UsedNow \cup (IF Trace[l].ev = "died" THEN {"crash:" \o Trace[l].site} ELSE {}) \cup (IF Trace[l].ev = "race" THEN {"race:" \o Trace[l].pair} ELSE {})      \* the state BEFORE this step (every trace ends with an "end" line)
         /\ TLCSet(2, used')
 Spec == Init /\ [][Next]_vars
 \* printed at the end: the listed findings that manifested (the check prints a KNOWN-FINDING line for each)
@@ -577,6 +608,16 @@ C09_SessionQerSound ==
              /\ QerKeysOK(tables.appQer, tables.sessQer, u, sess[u], sq)
              /\ SoundSessQer(sess[u], sq)
        \/ u \in Relaxed
+
+\* C10
+C10_StopCompletesWithoutPanic == chk.stopClean
+C10_StopInBoundedTime == chk.stopTime
+C10_EachSessionRemovedExactlyOnce ==
+  /\ chk.stopOnce
+  /\ ((last.ev \in {"stop", "lost"} \/ (last.ev = "req" /\ last.kind = "release")) =>
+        \A u \in ended : \A x \in tables.pdr \cup tables.far \cup tables.appQer \cup tables.sessQer : x.fseid # u \/ x \in stale \/ u \in tainted)
+\* the association is forgotten (the same peer associates afresh) and other associations are unaffected: the steps that
+\* follow a teardown are judged by the C02 / C03 invariants listed in the same configuration
 
 \* C12
 C12_AtMostOnePlusNTransmissions == chk.rtCount
